@@ -81,13 +81,13 @@ var ConfigDefault = Config{
 
 // Helper function to set default values
 func configDefault(config ...Config) Config {
-	// Return default config if nothing provided
-	if len(config) < 1 {
-		return ConfigDefault
-	}
+	// Start from the default config if nothing provided
+	cfg := ConfigDefault
 
 	// Override default config
-	cfg := config[0]
+	if len(config) > 0 {
+		cfg = config[0]
+	}
 
 	// Set default values
 	if cfg.Next == nil {
